@@ -267,7 +267,7 @@ func genCall(r *rand.Rand) c19Call {
 	case 11, 12:
 		ct := pick(r, []string{"text/event-stream", "application/octet-stream"})
 		s := pick(r, textPool)
-		kind := pick(r, []string{"strings.Reader", "LimitReader", "oneByteReader", "bytes.Buffer", "failing", "data+EOF", "data+error", "partly-read strings.Reader", "partly-read bytes.Reader", "SectionReader"})
+		kind := pick(r, []string{"strings.Reader", "LimitReader", "oneByteReader", "bytes.Buffer", "failing", "data+EOF", "data+error", "partly-read strings.Reader", "partly-read bytes.Reader", "SectionReader", "failing ReadCloser", "ReadCloser"})
 		skip := 0
 		if strings.HasPrefix(kind, "partly-read") && len(s) > 0 {
 			skip = 1 + r.IntN(len(s)) // the caller has consumed a header of the source already
@@ -282,6 +282,10 @@ func genCall(r *rand.Rand) c19Call {
 				rd := bytes.NewReader([]byte(s))
 				_, _ = io.CopyN(io.Discard, rd, int64(skip))
 				return rd
+			case "failing ReadCloser":
+				return io.NopCloser(&dataErrReader{data: s, err: errors.New("upstream reset")}) // Close() succeeds, Read failed
+			case "ReadCloser":
+				return io.NopCloser(strings.NewReader(s))
 			case "SectionReader":
 				return io.NewSectionReader(strings.NewReader("xx"+s+"yy"), 2, int64(len(s)))
 			case "strings.Reader":
@@ -300,7 +304,7 @@ func genCall(r *rand.Rand) c19Call {
 			return &failingReader{data: s}
 		}
 		call := c19Call{Desc: fmt.Sprintf("Stream(%d, %q, %s of %q, %d bytes already consumed)", status, ct, kind, s, skip), Do: func(c *rux.Context) error { c.Stream(status, ct, mk()); return nil }, Status: want, CT: ct, Check: bodyIs(s[skip:])}
-		if kind == "failing" || (kind == "data+error" && s != "") {
+		if kind == "failing" || kind == "failing ReadCloser" || (kind == "data+error" && s != "") {
 			call.MustFail = true
 			call.Check = bodyIs(s) // what was read before the failure is still delivered
 		}
